@@ -23,7 +23,8 @@
        u32) -- which entries are raw-memory entries is taken from ref (abstraction of the
        firmware's marker).
      * flags follow acknowledgements: they change only while an acknowledgement is processed, in
-       the direction it says; EEXIST on create and ENOENT on delete may or may not flip.
+       the direction it says; EEXIST on create and ENOENT on delete report the device's state
+       (block present / absent) and the flags follow that.
      * SyncLogger: the yielded samples are a prefix of the decoded ones (once, in order); the
        iteration ends after the disconnect, not before; nothing is lost when the consumer had
        drained the queue at the disconnect (samples still queued at that moment may be dropped:
@@ -187,15 +188,15 @@ IsCreate(cmd) == cmd \in {0, 6}
 MayAdded(cmd, st, mine, b) ==
     IF ~mine THEN {b.added}
     ELSE IF IsCreate(cmd) /\ st = 0 THEN {TRUE}
-    ELSE IF IsCreate(cmd) /\ st = 17 THEN {b.added, TRUE}
+    ELSE IF IsCreate(cmd) /\ st = 17 THEN {TRUE}          \* EEXIST: the device says it has the block
     ELSE IF cmd = 2 /\ st = 0 THEN {FALSE}
-    ELSE IF cmd = 2 /\ st = 2 THEN {b.added, FALSE}
+    ELSE IF cmd = 2 /\ st = 2 THEN {FALSE}         \* ENOENT: the device says the block is not there
     ELSE {b.added}
 MayStarted(cmd, st, mine, b) ==
     IF ~mine THEN {b.started}
     ELSE IF cmd = 3 /\ st = 0 THEN {TRUE}
     ELSE IF cmd \in {2, 4} /\ st = 0 THEN {FALSE}
-    ELSE IF cmd = 2 /\ st = 2 THEN {b.started, FALSE}
+    ELSE IF cmd = 2 /\ st = 2 THEN {FALSE}
     ELSE {b.started}
 NCalls(cbs, w, v) == Cardinality({j \in DOMAIN cbs : cbs[j] = <<w, v>>})
 CallbacksFollow(w, before, after, errAck, cbs) ==
